@@ -941,6 +941,13 @@ def check_basis_o1(inp) -> list:
     N = len(cr.numbers)
     out = []
     dim, W = ph.reference_dimension(cr, 1)
+    # the order-1 sum-rule complement, uncompressed, is the model's matrix (O1.sumRuleO1): Tᵀ T = (1/N) 1_{NxN} ⊗ I_3
+    from scipy.sparse import identity as _sid
+    from symfc.utils.matrix_tools_O1 import _compressed_complement_projector_sum_rules
+    pc = _compressed_complement_projector_sum_rules(_sid(3 * N, format="csr"), N)
+    pc = pc.toarray() if hasattr(pc, "toarray") else np.asarray(pc)
+    if float(np.abs(pc - np.kron(np.ones((N, N)) / N, np.eye(3))).max()) > 1e-12:
+        out.append("order 1: sum-rule complement is not (1/N) 1 (x) I_3")
     try:
         bs = FCBasisSetO1(cr.atoms()).run()
     except ValueError as e:
